@@ -1279,3 +1279,77 @@ def _split_top(s):
     if cur:
         out.append(cur)
     return out
+
+
+def clock_exact(cx, iid):
+    """T7 SHAPE: both endpoints measure time as the whole milliseconds elapsed since their time base, converted once and
+    without narrowing: every deadline, retry interval and rate credit in the crate is a difference of such readings.  A
+    clock floored to seconds books a frame up to 999 ms early (a timeout reported before the configured silence); a clock
+    narrowed through a 32-bit type restarts after 49.7 days while the stored deadlines do not."""
+    R = cx.R
+    ok_src = (r"Instant::sub\(Instant::now\(\),arg1\.time_base\)", r"Instant::duration_since\(Instant::now\(\),arg1\.time_base\)",
+              r"Instant::elapsed\(arg1\.time_base\)")
+    with cx.instance(iid, "T7 SHAPE", "Client::now_ms / Server::now_ms return (now - time_base).as_millis() as u64", floor=2) as inst:
+        for fn in ("client::Client::now_ms", "server::Server::now_ms"):
+            b = R.body(fn)
+            e = show(b.local_expr(0))
+            inst.site(b, None, "%s = %s" % (fn.split("::")[-2] + "::now_ms", e[:100]))
+            if not any(re.fullmatch(r"cast<u64>\(Duration::as_millis\(%s\)\)" % s, e) for s in ok_src):
+                inst.violation(b.path, "clock reading", "now_ms returns `%s`, not the elapsed whole milliseconds since time_base as a u64: resolution, scale or range of every deadline computed from it changes" % e[:160])
+        for b in R.all_bodies():
+            for loc, node, ps in b.field_writes(r".*\.time_base"):
+                inst.site(b, loc, "write of time_base in " + b.path)
+                if b.path not in ("client::Client::connect", "server::Server::bind"):
+                    inst.violation(b.path, "write of time_base", "the time base is moved after construction: every stored deadline is relative to it", at=b.span_at(loc))
+
+
+def socket_drain(cx, iid):
+    """T2 PAIR: handle_frames polls the socket again after every datagram it received, whatever became of it (unreadable,
+    refused, handled): the receive loop is left only when the socket has nothing more (recv returns Err).  Leaving early
+    on an unreadable datagram lets one stray datagram keep the frames queued behind it from their connections for a whole
+    step: deadlines are then tested against stale arrival times."""
+    R = cx.R
+    with cx.instance(iid, "T2 PAIR (path)", "in Client/Server::handle_frames every path from a successful recv leads back to the next recv; frames that parse are forwarded to handle_frame", floor=2) as inst:
+        for fn, callee in (("client::Client::handle_frames", "UdpSocket::recv"), ("server::Server::handle_frames", "UdpSocket::recv_from")):
+            b = R.body(fn)
+            recvs = [l for l, t in b.calls(callee)]
+            if len(recvs) != 1:
+                inst.violation(b.path, "recv sites", "expected exactly one %s call in %s (anchor)" % (callee, fn))
+                continue
+            inst.site(b, recvs[0], "poll: " + callee)
+            rb = recvs[0].bb
+            t = b.term(rb)
+            nxt = t.get("target")
+            # the Ok edge of the switch on the result
+            ok_targets = []
+            fa = cx.fa(b)
+            for bb in sorted(b.reachable):
+                if b.term(bb)["k"] != "switch":
+                    continue
+                for y, lab in b.succ[bb]:
+                    lits = fa.edge_lits.get((bb, y, lab[1]), [])
+                    if any(re.fullmatch(r"is\(%s\(.*\),Ok\)" % re.escape(callee), l) for l in lits):
+                        ok_targets.append(y)
+            if not ok_targets:
+                inst.violation(b.path, "Ok edge", "no branch on the result of %s found (anchor)" % callee)
+                continue
+            for y in ok_targets:
+                w = b.reach_exit_avoiding(Loc(y, -1), recvs)
+                if w is not None:
+                    inst.violation(b.path, "receive loop left early", "after a datagram was received, %s can return without polling the socket again (blocks %s): datagrams queued behind it wait for the next step" % (fn.split("::")[-2] + "::handle_frames", w[:8]))
+            hf = call_sites(b, fn.rsplit("::", 1)[0].split("::")[-1] + "::handle_frame")
+            for l, lab in hf:
+                inst.site(b, l, "forward: " + lab[:60])
+            if not hf:
+                inst.violation(b.path, "handle_frame", "handle_frames never forwards a parsed frame")
+            else:
+                # a frame that parses is forwarded: from the Some edge of Frame::read the next poll is not reached without handle_frame
+                for bb in sorted(b.reachable):
+                    if b.term(bb)["k"] != "switch":
+                        continue
+                    for y, lab in b.succ[bb]:
+                        lits = fa.edge_lits.get((bb, y, lab[1]), [])
+                        if any(re.fullmatch(r"is\(Frame::read\(.*\),Some\)", l) for l in lits):
+                            w = b.reach_exit_avoiding(Loc(y, -1), [l for l, _ in hf], exits=recvs)
+                            if w is not None:
+                                inst.violation(b.path, "parsed frame dropped", "a datagram that parses as a frame can be skipped without being handed to handle_frame")
